@@ -8,7 +8,7 @@ from concurrent.futures import ThreadPoolExecutor
 
 import edges
 import replay as rp
-from vlib import HARNESS, NCPU, Inconclusive, go_build, workdir
+from vlib import HARNESS, NCPU, Inconclusive, go_build, phase, workdir
 
 CFG = """SPECIFICATION Spec
 CONSTANTS
@@ -104,6 +104,48 @@ def run_plan(binp, wd, p, tlc_workers, threads, thorough):
     return p, st, modes, res, round(t1 - t0, 1), round(time.time() - t1, 1)
 
 
+FS_CFG = """SPECIFICATION Spec
+CONSTANTS T = "%s"
+INVARIANTS ValsOK
+PROPERTIES WriteFrame
+ACTION_CONSTRAINT Emit
+VIEW View
+CHECK_DEADLOCK FALSE
+"""
+FS_LEAVES = {"T1": ["X", "Mid.Y", "Mid.Deep.X", "Mid.Deep.Z"], "T2": ["A.V", "B.C.D.V", "B.C.D.W"], "T3": ["P.G", "P.Q", "Q"],
+             "T4": ["Deep2.In.X", "Deep2.In.U", "X"], "T5": ["P5.P.G", "P5.P.Q", "P5.H", "K"]}
+FS_NIL0 = {"T1": [], "T2": [], "T3": ["P"], "T4": [], "T5": ["P5"]}
+
+
+def run_fieldsel(chk, wd, binp):
+    """FieldSel.tla: which Go field a property of a wrapped struct with embedded structs / pointers denotes, under two name mappers"""
+    tours = 0
+    for ty in sorted(FS_LEAVES):
+        gwd = os.path.join(wd, "fs-" + ty)
+        os.makedirs(gwd)
+        init = {"o": {"val": {p: 0 for p in FS_LEAVES[ty]}, "nil": FS_NIL0[ty]}, "n": 0}
+        g, st = edges.build_graph("FieldSel", FS_CFG % ty, gwd, init, obs0=init, workers=2, timeout=900)
+        chk.add("states", st["states"])
+        chk.add("transitions", st["transitions"])
+        jobs = []
+        for mapper in ("none", "uncap"):
+            pre = os.path.join(gwd, "pre-%s.js" % mapper)
+            open(pre, "w").write('var TYPE = "%s", MAPPER = "%s";\n' % (ty, mapper))
+            jobs.append({"args": ["-adaptor", pre + "," + os.path.join(HARNESS, "adaptors", "fieldsel.js")], "tag": mapper})
+        res = rp.run_jobs(binp, g, gwd, jobs, conc=2, threads=4, walks=20, walklen=3, maxtour=4, timeout=900)
+        for job, (reps, crashes) in zip(jobs, res):
+            what = "FieldSel/%s mapper=%s" % (ty, job["tag"])
+            tot, nodes = rp.fold(chk, reps, crashes, what, {}, {"module": "FieldSel", "type": ty, "mapper": job["tag"]})
+            chk.add("edges_total", tot["edges"])
+            chk.add("edges_replayed", tot["covered"])
+            chk.add("distinct_nontrivial", tot["nontrivial"])
+            chk.add("evaluations", tot["steps"])
+            tours += tot["tours"]
+            if tot["covered"] + tot["lost_to_known"] < tot["edges"] and not chk.violations:
+                raise Inconclusive("%s: %d of %d edges not replayed" % (what, tot["edges"] - tot["covered"], tot["edges"]))
+    return tours
+
+
 def run(chk, tier):
     wd = workdir("C13")
     thorough = tier == "thorough"
@@ -136,6 +178,8 @@ def run(chk, tier):
             traces += tot["tours"]
             if tot["covered"] + tot["lost_to_known"] < tot["edges"] and not chk.violations:
                 raise Inconclusive("%s: %d of %d edges not replayed" % (what, tot["edges"] - tot["covered"], tot["edges"]))
+    with phase(chk, "fieldsel"):
+        traces += run_fieldsel(chk, wd, binp)
     chk.setcov("configurations", walls)
     chk.setcov("traces_validated_against_impl", traces)
     chk.setcov("exhaustive", True)
@@ -152,7 +196,8 @@ def run(chk, tier):
         "argument values are {F: 5}, 5, null and kept references; plain objects are not stored into interface{} / pointer cells "
         "(that creates anonymous Go values the model has no name for)",
         "map key order is unspecified (Go maps): keys are compared as sets",
-        "the type-quantified half of C13 (round trip over generated Go types, field name mappers, function signatures) is not covered",
+        "of the type-quantified half of C13 only the field selection of embedded structs / embedded pointers is covered (FieldSel.tla, 5 type "
+        "families x 2 name mappers); the round trip over generated Go types and function signatures is not",
     ]
 
 
@@ -161,6 +206,20 @@ def replay(path):
     binp = os.path.join(wd, "jsreplay")
     go_build("jsreplay", binp)
     m = json.load(open(path))["replay"]
+    if m.get("module") == "FieldSel":
+        pre = os.path.join(wd, "pre.js")
+        open(pre, "w").write('var TYPE = "%s", MAPPER = "%s";\n' % (m["type"], m["mapper"]))
+        r = subprocess.run([binp, "-replay", path, "-adaptor", pre + "," + os.path.join(HARNESS, "adaptors", "fieldsel.js")], stdout=subprocess.PIPE, text=True)
+        got = json.loads(r.stdout)
+        for l in m.get("path", []):
+            print("   ", json.dumps(l))
+        print("want res=%s obs=%s" % (m.get("want_res"), m.get("want_obs")))
+        print("got  res=%s obs=%s %s" % (got.get("res"), got.get("obs"), got.get("panic", "")[:400]))
+        if got.get("obs") == m.get("want_obs") and got.get("res") == m.get("want_res"):
+            print("replay: agrees with the specification now")
+            return 0
+        print("VIOLATION property=C13 replay=%s" % path)
+        return 1
     p = m.get("plan") or plan("pss")
     pre = prefix_file(wd, p, bool(m.get("lean")))
     r = subprocess.run([binp, "-replay", path, "-adaptor", pre + "," + ADAPTOR], stdout=subprocess.PIPE, text=True)
